@@ -17,7 +17,8 @@ BUDGET = {"quick": 240.0, "thorough": 1800.0}
 RULE = ("case = one total sample count n; every k in 2..n is judged for both prior distributions; "
         "quick: every n in 2..40 (exhaustive for that bound, exact rationals) plus n=1300 at 8 spot values of k; thorough: every n in "
         "2..100 plus 41 larger n up to 400 (40-digit arithmetic); distinct = (n,k) pairs; "
-        "non-trivial = k < n or n > 2")
+        "non-trivial = k < n or n > 2; for n <= 40 the rows are also requested from an object that has a "
+        "lookup table and served an approximate add() first")
 EXHAUSTIVE = True
 
 
@@ -99,6 +100,8 @@ def case(ctx, i, rec):
     rec.nontrivial = n > 2
     if i < 3:
         rec.sample = dict(n=n, k_range=[2, n], arithmetic="Fraction" if exact else "mpmath-40", example={"k": n, "mean": ref[n][0], "var": ref[n][1]})
+    if n <= 40:
+        history_part(ctx, n, ref, rec)
     for distr in ("lognorm", "gamma"):
         obj = tprior.ConditionalCoalescentTimes(None, distr)
         obj.add(n)
@@ -131,6 +134,36 @@ def case(ctx, i, rec):
                               f"n={n} k={k}: (alpha,beta)=({alpha!r},{beta!r}) but moment matching gives ({a!r},{b!r})", n=n, k=k)
 
 
+def history_part(ctx, n, ref, rec):
+    """the same rows requested from an object with a call history: a lookup table is present and an
+    approximate add() came first; a default add(n) for small n must still be exact"""
+    import os
+    import pathlib
+    d = pathlib.Path(ctx.scratch) / f"c14cache-{os.getpid()}"
+    d.mkdir(parents=True, exist_ok=True)
+    orig = tprior.cache.get_cache_dir
+    tprior.cache.get_cache_dir = lambda: d
+    try:
+        for distr in ("lognorm", "gamma"):
+            obj = tprior.ConditionalCoalescentTimes(20, distr)
+            obj.add(n + 7, approximate=True)
+            obj.add(n)
+            rows = obj[n]
+            worst = 0.0
+            for k in range(2, n + 1):
+                alpha, beta, mean, var = [float(x) for x in rows[k]]
+                rm, rv = ref[k]
+                worst = max(worst, abs(mean - rm) / rm, abs(var - rv) / rv)
+                rec.count("pairs_judged_after_call_history")
+            rec.maxi("relerr_after_call_history", worst)
+            if not (worst <= 1e-9):
+                rec.violation("not-exact-after-an-approximate-add",
+                              f"n={n} ({distr}): after add({n + 7}, approximate=True) a default add({n}) stored moments "
+                              f"off by {worst:.3g} relative", n=n)
+    finally:
+        tprior.cache.get_cache_dir = orig
+
+
 def post(ctx, agg):
     ns = ns_for(ctx)
     agg.extra["n_values"] = [ns[0], "...", ns[-1], f"{len(ns)} values"]
@@ -139,5 +172,5 @@ def post(ctx, agg):
 
 
 def reach(ctx, agg):
-    need = {"pairs_judged": 1500}
+    need = {"pairs_judged": 1500, "pairs_judged_after_call_history": 500}
     return [f"{k} = {agg.cnt.get(k, 0)} < {v}" for k, v in need.items() if agg.cnt.get(k, 0) < v]
